@@ -1,4 +1,5 @@
 mod big;
+mod book03;
 mod book16;
 mod book17;
 mod book18;
@@ -109,6 +110,7 @@ fn main() {
             let full = argv.get(5).map(|s| s == "full").unwrap_or(false);
             match which {
                 "c13" => native::c13(n, seed, full),
+                "c03" | "c12" => book03::c03(n, seed),
                 "c16" => book16::c16(),
                 "c17" => book17::c17(n, seed),
                 "c18" => book18::c18(),
